@@ -3,7 +3,7 @@
 that every run is silent (exit 0) and that the measured coverage counters are identical (the seed only rotates the enumeration order)."""
 import json, os, subprocess, sys
 checks = sys.argv[1:] or [c["property_id"] for c in json.load(open("/verif/MANIFEST.json"))["checks"]]
-combos = [("0", "0"), ("1", "0"), ("2", "1"), ("7", "random"), ("12345", "0")]
+combos = [tuple(x.split(":")) for x in os.environ.get("SWEEP", "0:0,1:0,2:1,7:random,12345:0").split(",")]
 bad = 0
 for c in checks:
     ref = None
